@@ -13,6 +13,7 @@ K_TR = "synkit/CRN/Petri/structure.py::_is_trap_indices"
 K_EN = "synkit/CRN/Petri/net.py::PetriNet.enabled"
 K_FI = "synkit/CRN/Petri/net.py::PetriNet.fire"
 K_MT = "synkit/CRN/Petri/net.py::PetriNet.marking_to_tuple"
+K_MIN = "synkit/CRN/Petri/structure.py::_minimal_sets"
 
 
 def defn_sets(rxns, species, kind):
@@ -214,6 +215,16 @@ def run(tw, tier, seed, only=None):
             samples.append(rxns)
         if len(fails) > 20:
             break
+    # the minimality filter under proof, natively on random families of small integer sets (duplicates, chains, incomparable sets, the empty set)
+    if K_MIN in tw.functions:
+        for _ in range(150 if tier == "quick" else 1500):
+            cand = [set(rng.sample(range(5), rng.randint(0, 4))) for _ in range(rng.randint(0, 7))]
+            out, v = tw.check_call(K_MIN, ST._minimal_sets, dict(candidates=[set(c) for c in cand]))
+            cases += 1
+            want = [c for c in cand if not any(d < c for d in cand)]
+            got = out[1] if out[0] == "return" else None
+            if v or got is None or sorted(map(sorted, got)) != sorted(map(sorted, {frozenset(c) for c in want})):
+                fails.append({"function": "_minimal_sets", "violations": list(v) or ["result %s, minimal candidates %s" % (got, want)], "candidates": [sorted(c) for c in cand], "tags": {}})
     return {"cases": cases, "nontrivial": nontriv, "failures": fails, "samples": samples, "exhaustive": False,
             "evaluations": tw.evaluations,
             "bound": "all networks over 3 species with <= %d unit-coefficient reactions (%d) and all their species subsets + %d random networks <= 5 species; "
